@@ -335,6 +335,9 @@ func c12run(w *report.W) {
 					if rep == "parsed" && (pieces[s] > 3 || (!w.Thorough() && pieces[s] > 2)) {
 						continue // the parsed representation for strings of <=2 (quick) / <=3 (thorough) pieces
 					}
+					if !w.Thorough() && pieces[s] > 2 && (perm.Name == "self-reference" || perm.Name == "seven-dimensions" || strings.Contains(pos, "smap") || pos == "plugin-source-noconfig" || pos == "extra-nested-value") {
+						continue // quick: the later additions (two permutations, typed-map and config-less positions) with strings of <=2 pieces
+					}
 					if pieces[s] > 3 && (perm.Name == "self-reference" || perm.Name == "seven-dimensions" || strings.Contains(pos, "+") || strings.Contains(pos, "smap") || pos == "plugin-source-noconfig") {
 						continue // four-piece strings (thorough): the single positions and the five basic permutations
 					}
